@@ -1,5 +1,5 @@
 (* non-vacuity for C02: a diamond with a dangling parent and a multi-parent node is in the domain *)
-From GV Require Import Base.Prelude Base.PyStr Model.Bins Model.DB Model.Parser Model.Query Model.Import Model.Hier.
+From GV Require Import Base.Prelude Base.PyStr Model.Bins Model.DB Model.Parser Model.Query Model.Import Model.Hier Proofs.C02Proofs Proofs.C02Hist.
 Open Scope Z_scope.
 Definition nd (id : str) (ps : list str) : row :=
   mkRow [] (U "chr1"%bs) (U "s"%bs) (U "exon"%bs) (Some 1) (Some 9) [46%N] [43%N] [46%N]
@@ -10,3 +10,22 @@ Example C02_domain_inhabited : in_domain exG = true /\
   exists st, import_gff (fun _ _ => None) SError [] (SList [KAttr IDK]) exG empty_st = Ok st /\
              existsb (fun x => rel_eqb x (mkRel (U "g"%bs) (U "c"%bs) 2)) (s_rels st) = true.
 Proof. split; [vm_compute; reflexivity|]. eexists. split; [vm_compute; reflexivity|vm_compute; reflexivity]. Qed.
+
+(* a history for C02_history_closed: a chain a > b > c > d of depth 3 imported by create_db, then two updates (one adds a
+   leaf under d and, later than its grandchildren, a new root above a).  The great-grandchild d of a is NOT a level-2
+   child of a (the F22 witness), the late root r gets its grandchild b *)
+Definition hist : list (strategy * list row) :=
+  [(SError, [nd (U "a"%bs) [U "r"%bs]; nd (U "b"%bs) [U "a"%bs]; nd (U "c"%bs) [U "b"%bs]; nd (U "d"%bs) [U "c"%bs]]);
+   (SCreateUnique, [nd (U "e"%bs) [U "d"%bs]]);
+   (SMerge, [nd (U "r"%bs) []; nd (U "e"%bs) [U "d"%bs]])].
+Example C02_history_inhabited : exists st', imports (fun _ _ => None) [] (SList [KAttr IDK]) hist empty_st = Ok st' /\
+  (forall b, In b hist -> fst b <> SReplace) /\
+  existsb (rel_eqb (mkRel (U "a"%bs) (U "d"%bs) 2)) (s_rels st') = false /\
+  existsb (rel_eqb (mkRel (U "b"%bs) (U "d"%bs) 2)) (s_rels st') = true /\
+  existsb (rel_eqb (mkRel (U "r"%bs) (U "b"%bs) 2)) (s_rels st') = true /\
+  existsb (rel_eqb (mkRel (U "c"%bs) (U "e"%bs) 2)) (s_rels st') = true.
+Proof.
+  eexists. split; [vm_compute; reflexivity|]. split.
+  - intros b Hb. repeat (destruct Hb as [Hb|Hb]; [subst b; discriminate|]). destruct Hb.
+  - vm_compute. repeat split.
+Qed.
